@@ -226,9 +226,9 @@ def run(ctx, rep) -> None:
     rep.ob("C17.3", "DistributedShampoo.__init__/validation-precedes-construction", not raises_after and not state_before, init.loc(), f"{len(raises_after)} guard(s) after super().__init__, {len(state_before)} state-creating call(s) before it", sample=True)
 
     # ---------------- config __post_init__ chains
-    _post_init_chains(ctx, rep)
+    rep.attempt("_post_init_chains", _post_init_chains, ctx, rep)
     # ---------------- C17.4
-    _dispatch_tables(ctx, rep)
+    rep.attempt("_dispatch_tables", _dispatch_tables, ctx, rep)
 
 
 def _post_init_chains(ctx, rep) -> None:
